@@ -274,6 +274,11 @@ def _check_main(ctx, rep: Report):
 def check(ctx, rep):
     from . import metarules, shared
     _check_main(ctx, rep)
+    from . import metarules, r5rules
+    r5rules.property_rules(ctx, rep, "C11.PROP", ("inv",))
+    r5rules.refresh_rules(ctx, rep, "C11.REFRESH")
+    r5rules.setattr_rules(ctx, rep, "C11.DUNDER", ("forward",))
+    r5rules.invalidate_no_force(ctx, rep, "C11.INV")
     shared.own_namespace_lookups(ctx, rep, "C11.NS")
     metarules.property_rebuild_forwards(ctx, rep, "C11.SRC")
     metarules.recursion_threads_guard(ctx, rep, "C11.TRANS")
